@@ -52,6 +52,8 @@ def run_shard(spec, res):
 
 def replay(case, res):
     e2e_check.replay_case(res, case, PROPS)
+    for rec in res.counters.get("unexpected_exception_cases", []):
+        res.violation("a front end raised %s on a valid input instead of returning one label per row" % rec["tag"], case)
 
 
 def finalize(merged, tier):
@@ -59,8 +61,8 @@ def finalize(merged, tier):
     # "for every input series ... the front end returns": an input inside the quantifier that makes a front end raise anything other
     # than the library's legitimate refusals (mixture model refuses the data, empty cluster at round 0, non-finite covariance, donor
     # shortage) did not get its T labels
-    for tag in merged["counters"].get("unexpected_exceptions", [])[:5]:
-        out["violations"].append({"msg": "a front end raised %s on a valid input instead of returning one label per row" % tag, "case": {"tag": tag}})
+    for rec in merged["counters"].get("unexpected_exception_cases", [])[:5]:
+        out["violations"].append({"msg": "a front end raised %s on a valid input instead of returning one label per row" % rec["tag"], "case": rec["case"]})
     ec.min_counter(merged, out, "results_checked", 100 if tier == "quick" else 1000)
     ec.min_counter(merged, out, "wide_data_runs", 8 if tier == "quick" else 60)
     ec.unexpected(merged, out)
